@@ -286,6 +286,11 @@ func (s MinPriorityCoinSelector) CoinSelect(targetValue bchutil.Amount, coins []
 					newMaxInputs = numLow
 				}
 				newMinAvgValueAge := ((s.MinAvgValueAgePerInput * int64(allHigh.Num()+numLow)) - allHigh.TotalValueAge()) / int64(numLow)
+				// Round a positive shortfall up: truncation would let the
+				// low-priority coins miss the required average.
+				if shortfall := (s.MinAvgValueAgePerInput * int64(allHigh.Num()+numLow)) - allHigh.TotalValueAge(); shortfall > 0 && shortfall%int64(numLow) != 0 {
+					newMinAvgValueAge++
+				}
 
 				// find the minimum priority that can be added to set
 				lowSelect, err := (&MinPriorityCoinSelector{
